@@ -50,6 +50,12 @@ CHECKS = {
  "C11": dict(cat="exploration", ref="DESIGN.md §6 C11",
    technique="deterministic simulation with fault injection: seeded histories of set_input_delay calls (before the first frame, several per tick, while stalled, per-player) inside lossy multi-peer runs; oracle = executable input-delay reference model checked at owner, remotes and spectators",
    text="C01's space (rollback and lockstep, 2-3 peers, 1-2 local players, spectators) with 1-8 set_input_delay calls per run at seeded instants. A 30-line reference model of the documented semantics (an increase repeats the last input for the frames it opens up, a decrease drops submissions until the queue has caught up) defines every player's true input per frame; owner, every remote and every spectator must end with it on every sealed frame, statuses must be truthful, no call may panic."),
+ "C17": dict(cat="exploration", ref="DESIGN.md §6 C17",
+   technique="deterministic simulation: every plan executed three times in one process with identical schedule, clock and packet fates but different hash keys (one key / fresh key per map) and different handshake random numbers; oracle = equality of request lists, events and traffic schedule",
+   text="Each seeded plan from C01's space (half with 3-4 peers, several local players per peer, spectators, desync detection, rollback and lockstep) is executed three times with nothing changed except the keys of every hash map (a single key, or a fresh key per map as std's RandomState would give) and the random numbers of the handshake. The network model keys every decision on (link, per-link packet index), so the premise of the property - same packets, same order, same clock - holds by construction and is itself compared. Request lists, states, final frames, per-address event sequences with timestamps and the executed traffic schedule must be identical."),
+ "C18": dict(cat="exploration", ref="DESIGN.md §6 C18",
+   technique="deterministic simulation with fault injection: long simulated sessions (all-local, never-drained events, silent spectators, lost checksum reports, repeated ack outages) with every internal buffer size read through a read-only accessor after each API call and compared with configuration-only bounds",
+   text="Sessions of up to 20000 frames under the conditions that make buffers grow - no remotes at all, events never drained, a spectator that stops polling, checksum reports lost, acknowledgements cut one way for up to 0.9 x timeout - with the sizes of the event queue, pending and outgoing local inputs, unacknowledged inputs, remembered received inputs, pending checksums and checksum history read after every API call and checked against bounds that depend only on the configuration; a silent spectator must have been disconnected by the 128-input cap while the host keeps running."),
 }
 NOT_YET = "not claimed at this commit: the check for this property is still under construction (see DESIGN.md §6 for the planned check)"
 NA = {
